@@ -1755,26 +1755,25 @@ pub mod fasta {
                 ensures
                     writer.written() == w0 + lazy_wrap(t0 + subseq@, w) && n_line == last_len(t0 + subseq@, w) && writer.fin() == fin0,
                 decreases chunk@.len(), (if n_line == wrap { 1int } else { 0int }),
-//@at depth=3 kw=let nth=0 expect="let remaining = "
+//@at depth=3 nth=0
                     let ghost tin = t0 + subseq@.subrange(0, subseq@.len() - chunk@.len());
-                    let ghost eager = n_line == 0 && tin.len() > 0;
                     let ghost wr0 = writer.written();
-                    proof { lemma_last_len_bounds(tin, w); }
-//@at depth=4 kw=writer nth=0 expect="writer\.write_all\(chunk\)"
-                        proof {
-                            assert(tin + chunk@ =~= t0 + subseq@) by {
-                                assert(subseq@.subrange(0, subseq@.len() - chunk@.len()) + chunk@ =~= subseq@);
-                            }
-                            lemma_lazy_step(tin, chunk@, w);
-                        }
-//@at depth=3 kw=let nth=1 expect="let \(line, rest\) = chunk\.split_at\("
                     proof {
-                        let ln = chunk@.subrange(0, (w - n_line) as int);
-                        assert(tin + ln =~= t0 + subseq@.subrange(0, subseq@.len() - chunk@.len() + (w - n_line))) by {
-                            assert(subseq@.subrange(0, subseq@.len() - chunk@.len()) + ln =~= subseq@.subrange(0, subseq@.len() - chunk@.len() + (w - n_line)));
+                        lemma_last_len_bounds(tin, w);
+                        // case "the rest of the chunk fits on the current line"
+                        assert(tin + chunk@ =~= t0 + subseq@) by {
+                            assert(subseq@.subrange(0, subseq@.len() - chunk@.len()) + chunk@ =~= subseq@);
                         }
-                        lemma_lazy_step(tin, ln, w);
-                        lemma_last_len_bounds(tin + ln, w);
+                        lemma_lazy_step(tin, chunk@, w);
+                        // case "the line is filled up and broken"
+                        if chunk@.len() > w - n_line {
+                            let ln = chunk@.subrange(0, (w - n_line) as int);
+                            assert(tin + ln =~= t0 + subseq@.subrange(0, subseq@.len() - chunk@.len() + (w - n_line))) by {
+                                assert(subseq@.subrange(0, subseq@.len() - chunk@.len()) + ln =~= subseq@.subrange(0, subseq@.len() - chunk@.len() + (w - n_line)));
+                            }
+                            lemma_lazy_step(tin, ln, w);
+                            lemma_last_len_bounds(tin + ln, w);
+                        }
                     }
 //@after_loop 1
             proof {
